@@ -92,7 +92,7 @@ PROPS = {
     },
     "C19": {
         "standins": ["trap"],
-        "units": [wire_community.units_c19, seam.units, pythonic.units], "level": "other", "design_ref": "7.19",
+        "units": [wire_community.units_c19, seam.units, pythonic.units, pythonic.units_trapview], "level": "other", "design_ref": "7.19",
         "technique": VC + "register_trap_callback's decode closure executed on a well-formed SNMPv2c notification with symbolic "
                      "leaves: version sniffing, loader, V2CMPM.decode, community check, scheduling of the callback",
         "trusted_base": ["asyncio: ensure_future schedules the coroutine once; an exception escaping a protocol callback is logged "
@@ -109,7 +109,7 @@ PROPS = {
     },
     "C15": {
         "standins": ["ops-C15"],
-        "units": [pythonic.units], "level": "other", "design_ref": "7.15",
+        "units": [pythonic.units, types_c17.units], "level": "other", "design_ref": "7.15",
         "technique": VC + "every PyWrapper method executed against a raw client used by contract (symbolic raw results of "
                      "enumerated container sizes, values of any SNMP class); postconditions: only built-in types (dictionary "
                      "keys included) and equality with the element-wise pythonisation",
